@@ -17,7 +17,7 @@ fn spec_for(prop: &str, _tier: Tier) -> Option<Spec> {
 			let mut s = Spec::new(
 				"C05",
 				"exploration",
-				"A case is one multi-threaded history (2-4 s): real background workers, 2 committer threads each owning a disjoint key set in a uniform hash column and a btree column (so the version order of every key is its owner's program order), every value carrying (owner, version, key, size class padding), 4 reader threads, a filler thread forcing index growth in the readers' index page, seeded delays at the library's yield hooks. Readers sample completed[owner] before and started[owner] after each get; the offline checker (linear, per key) accepts a read iff some version in [max(completed-before, seen-by-this-reader), started-after] has the observed writer as last writer of the key, then raises seen. evaluations = reads checked; distinct_nontrivial = distinct (column, result class, window width bucket, pipeline location of the newest owner version at the time, always_flush) classes among reads with a window of more than one version.",
+				"A case is one multi-threaded history (2-4 s): real background workers, 2 committer threads each owning a disjoint key set in a uniform hash column and a btree column (so the version order of every key is its owner's program order), every value carrying (owner, version, key, size class padding), 4 reader threads, a filler thread forcing index growth in the readers' index page, seeded delays at the library's yield hooks (three flavours: delays at the hand-over sites of the write pipeline; 'reader windows' - paced clients, pipeline at full speed, readers held between index lookup and value fetch; 'deep queue' - only the log worker slowed, thousands of commits of the same few keys queued while index growth records are logged in between). Readers sample completed[owner] before and started[owner] after each get; the offline checker (linear, per key) accepts a read iff some version in [max(completed-before, seen-by-this-reader), started-after] has the observed writer as last writer of the key, then raises seen. evaluations = reads checked; distinct_nontrivial = distinct (column, result class, window width bucket, pipeline location of the newest owner version at the time, always_flush) classes among reads with a window of more than one version.",
 			)
 			.require("reads_checked", 200_000)
 			.require("reads_nontrivial_window", 20_000)
@@ -26,6 +26,8 @@ fn spec_for(prop: &str, _tier: Tier) -> Option<Spec> {
 			.require("index_growths", 1)
 			.require("yield_hits", 1000)
 			.require("size_class_moves", 1000)
+			.require("histories_reader_windows", 5)
+			.require("histories_deep_queue", 3)
 			.budget(75, 900);
 			s.assumptions.push("owner-partitioned keys make the version order exact; window bounds are sampled outside the call interval (conservative)".into());
 			s
